@@ -23,7 +23,7 @@ from vf.core.hyp import Campaign
 ID = 'C13'
 LEVEL = 'exploration'
 RULE = (
-    'Hypothesis-generated scenarios: flavour (11 flavours) x builder prelude of 0-3 update/reset operations (positional '
+    'Hypothesis-generated scenarios: flavour (15 flavours, among them a function pair updating its state in place and a class whose training method is a decorator object) x builder prelude of 0-3 update/reset operations (positional '
     'seed and keyword hyper-parameters a, b) x 1-4 incremental training steps (stateful flavours), each with its own '
     'builder update/reset, optional set_params and route {live, set_state, SetState preset, Functor, pickled Functor} x '
     'final twin builder and route x 1-2 inputs x serialiser {cloudpickle, pickle}. Non-trivial: >=2 training steps and '
@@ -62,11 +62,13 @@ FAMILY = {
     'fn-stateless': 'function',
     'fn-stateful': 'function',
     'fn-sparse-state': 'function',
+    'fn-inplace-state': 'function',
     'mapped-names': 'class-wrapped',
     'mapped-callables': 'class-wrapped',
     'mapped-stateless': 'class-wrapped',
     'mapped-decorated': 'class-wrapped',
     'mapped-bare': 'class-wrapped',
+    'mapped-traced-method': 'class-wrapped',
     'mapped-required-arg': 'class-wrapped',
 }
 
